@@ -367,7 +367,7 @@ def r7_every_move_fully_recorded(ctx, rid="C02.R7"):
                     if x == pb:
                         reach = True
                         break
-                    work.extend(y for y in cfg.succ[x] if not f["blocks"][y]["cleanup"])
+                    work.extend(y for y in _feasible_succ(f, cfg, ex, x) if not f["blocks"][y]["cleanup"])
                 ctx.ob(rid, "%s|pawn-move-resets-the-clock" % k.rsplit("::", 1)[-1], not reach,
                        "" if not reach else "%s emits pawn moves (piece_moved = PAWN) but can do so without set_halfmove_reset: a pawn move that captures nothing (a quiet promotion, a push) then increments the half-move clock instead of resetting it" % f["display"],
                        ctx.where(f, line))
@@ -388,10 +388,32 @@ def r7_every_move_fully_recorded(ctx, rid="C02.R7"):
                     if x == pb:
                         reach = True
                         break
-                    work.extend(y for y in cfg.succ[x] if not f["blocks"][y]["cleanup"])
+                    work.extend(y for y in _feasible_succ(f, cfg, ex, x) if not f["blocks"][y]["cleanup"])
                 ctx.ob(rid, "%s|%s" % (k.rsplit("::", 1)[-1], sname), not reach,
                        "" if not reach else "%s can emit a move without having called Move::%s on it: the field keeps its zero default (for the undo fields: unmake restores clock 0 / no e.p. square; for the next e.p. square: the successor has no e.p. target)" % (f["display"], sname),
                        ctx.where(f, line), sample={"producer": k, "setter": sname} if sname == "set_previous_halfmove" else None)
+
+
+def _feasible_succ(f, cfg, ex, x):
+    """successors of block x, without the edges a constant switch discriminant rules out (after a helper was spliced
+    in with constant arguments, `if piece == PAWN` is decided)"""
+    t = f["blocks"][x]["term"]
+    if t["k"] != "switch":
+        return cfg.succ[x]
+    memo = f.setdefault("_feasible_succ_memo", {})
+    if x in memo:
+        return memo[x]
+    out = cfg.succ[x]
+    try:
+        v = fold(ex.operand(t["discr"]))
+        out = [t["otherwise"]]
+        for val, tb in t["targets"]:
+            if val == v:
+                out = [tb]
+    except Unfoldable:
+        pass
+    memo[x] = out
+    return out
 
 
 def enumerate_generator(ctx, rid):
